@@ -32,6 +32,8 @@ func init() {
 			{ID: "C01.6", Desc: "delta-seconds / Age saturation", Run: func(c *Ctx) { ruleSaturation(c, "C01.6") }, MinSites: 2},
 			{ID: "C01.7", Desc: "staleness relaxed only under request max-stale", Run: ruleC01_7, MinSites: 1},
 			{ID: "C01.8", Desc: "an unparseable Date is repaired like a missing one; synthesised Date is UTC", Run: func(c *Ctx) { ruleDateRepair(c, "C01.8") }, MinSites: 1},
+			{ID: "C01.12", Desc: "Cache-Control is read through all of its field lines (max-age on a second line counts)", Run: func(c *Ctx) { ruleRLIST(c, "C01.12", "Cache-Control") }, MinSites: 1},
+			{ID: "C01.13", Desc: "the 304 merge carries the validation response's Age into the stored response", Run: func(c *Ctx) { ruleMergeFilter(c, "C01.13") }, MinSites: 1},
 			{ID: "C01.11", Desc: "Expires-based lifetime is Expires minus Date", Run: func(c *Ctx) { ruleExpiresMinusDate(c, "C01.11") }, MinSites: 1},
 			{ID: "C01.10", Desc: "sums of ages and lifetimes saturate", Run: func(c *Ctx) { ruleDurationSums(c, "C01.10") }, MinSites: 2},
 			{ID: "C01.9", Desc: "a positive request max-age caps the lifetime on every path", Run: func(c *Ctx) { ruleRequestMaxAgeCaps(c, "C01.9") }, MinSites: 1},
